@@ -100,7 +100,7 @@ NOT_APPLICABLE = {
 }
 # additions made in later rounds (appended to the level text)
 EXTRA = {
- "C01": " The generator word behind each injected variate also varies in the bits the uniform conversion discards (zeros, ones, rounding tie, just below the tie at step level; all ones in the full sweeps). Histories of <= 3-4 operations {step, assign current_state, replace target} and variable-length candidates are enumerated as well.",
+ "C01": " The generator word behind each injected variate also varies in the bits the uniform conversion discards (zeros, ones, rounding tie, just below the tie at step level; all ones in the full sweeps). Histories of <= 3-4 operations {step, assign current_state, replace target} and variable-length candidates are enumerated as well. Pairs (x, y) equal under PartialEq but different in bits (+0.0 / -0.0) are enumerated with a bit-pattern-sensitive target and proposal.",
  "C02": " Negative step sizes (-0.1, -0.9). Field-mutation histories: positions (same shape and one more row), step_size, n_leapfrog re-assigned between two steps.",
  "C03": " Also NUTSChain<f32, Autodiff<NdArray<f64>>> (scalar type narrower than the backend float) on a reduced plan. Slice variates up to 1e6 (leaves with energy error in [1000, 1000+e) are not divergent), NaN-region targets, relocate-then-step histories, trees of depth 11-13.",
  "C04": " Requested acceptance statistics over the whole stated range (0.51 ... 0.985). Step-size search cases with forced initial momenta next to support boundaries and on Gaussians of sd 1e-5 / 1e4 / 1e5 (more than 10 halvings / doublings), non-termination caught by an evaluation budget in the harness targets.",
@@ -108,9 +108,9 @@ EXTRA = {
  "C07": " All 64 single-bit flips of the base seeds 0 and 42 give pairwise different output per sampler; constructions from library proposals that were used 0/1/70 times before agree bit for bit after seed(); run_progress vs run for 1-, 2- and 3-chain samplers.",
  "C08": " Every chain's proposal generator is also compared with every other chain's acceptance generator; library proposal streams for all single-bit flips of seed 42 are pairwise distinct; library proposals used 1/70 times before construction; HMC batches of 2048-4100 chains and batches installed through the public positions field of a one-chain sampler. A declared FREE-RUNNING supplement (16 real threads constructing default samplers; schedules sampled, not enumerated) covers races between constructors, which contain no scheduling point.",
  "C10": " User chains with finite f64 draws of magnitude 1e39 / 1e300 (outside the f32 range of the statistics side). Long runs: the per-chain tracker's count is exact across 2^24 updates (premise 'final message carries n = total' of the reporter model); thorough: a real run_progress of 2^24+8 transitions.",
- "C09": " Mixed-precision HMC (f32 scalars on an f64 backend) in the continuation check.",
+ "C09": " Mixed-precision HMC (f32 scalars on an f64 backend) in the continuation check. NUTS::run versus its chains over (chains, pool workers) configurations on both sides of chains > workers.",
  "C11": " Every family member <= 1023 draws and every array of the small exhaustive shapes is evaluated again as Fortran-ordered array, two axis-permuted views and a reversed strided view (split_rhat_mean_ess and RunStats::from).",
- "C12": " Every family member <= 600 draws and the smallest exhaustive shapes again in four other memory layouts.",
+ "C12": " Every family member <= 600 draws and the smallest exhaustive shapes again in four other memory layouts. The ess_from_chainstats entry point on the exhaustive shapes with >= 2 chains and the families.",
  "C13": " f64 trackers are built from the f64 initial state and all histories over the not-f32-representable values {0.1, 1/3, 0.7} are explored.",
  "C14": " HMC batches of 1, 2 (and 3) chains. The NUTS deviation bound is chosen per configuration so that the enumeration completes; trees whose leaves are all valid but exceed the leaf limit (2^12 for eps >= 0.3, 2^17 below) are reported cut-offs, a hang verdict needs growth after an invalid leaf. The initial step-size search is explored alone under every initial momentum of an alphabet (7 targets x 2 starts next to the boundary), non-termination caught by an evaluation budget inside the harness targets.",
  "C15": " All 4-operation histories over {sample d=1/3/70, set_seed(1), set_seed(2), clone}: draws after the last set_seed equal a fresh seeded proposal's.",
